@@ -1,10 +1,12 @@
 (* C17 — interpolated phase is anchored at cyclepoints and monotone between them.
    Model: Model/Phase.v — exact rational arithmetic in units of a quarter turn (pi/2): rise
    midpoint -1, peak 0, decay midpoint +1, trough -2 (= -pi; +2 on the branch approaching it).
-   None = NaN.  wf_cps c: along the sorted anchor list every step either advances the phase or
-   wraps into a trough, there are at least two anchors, and the first step, if it wraps into a
-   trough, spans two samples (implied by "consecutive extrema at least two samples apart";
-   first_gap_needed shows it cannot be dropped).  No axioms at all. *)
+   None = NaN.  wf_cps c has two clauses: along the sorted anchor list every step either advances
+   the phase or wraps into a trough, and there are at least two anchors.  The former third clause
+   (a first step that wraps into a trough spans two samples) is gone: it was only needed because
+   the start mask looked for the first INCREASING step; the start mask was repaired (F14) to look
+   for the first non-zero step, like the end mask.  C17_legacy_start_mask_refuted shows the old
+   start mask losing the first cyclepoint on a well-formed input.  No axioms at all. *)
 From Coq Require Import List Arith Bool ZArith QArith.
 Import ListNotations.
 From ByC Require Import Base.Result Model.Phase Proofs.Phase.
@@ -52,7 +54,7 @@ Theorem C17_linear_between_cyclepoints : forall c ph a0 v0 a1 v1 x, wf_cps c -> 
 Proof. exact phase_between. Qed.
 Print Assumptions C17_linear_between_cyclepoints.
 
-(* the precondition is satisfiable, and its third clause is needed *)
+(* the precondition is satisfiable *)
 Theorem C17_wellformed_example :
   wf_cps {| c_n := 20; c_peaks := [6; 14]%nat; c_troughs := [2; 10]%nat; c_rises := Some [4; 12]%nat; c_decays := Some [8]%nat |}.
 Proof. exact wf_example. Qed.
@@ -74,3 +76,12 @@ Theorem C17_legacy_extra_finite_sample_refuted :
   last (map fst (anchors (-2) ex_two)) 0%nat = 14%nat.
 Proof. exact phase_legacy_refuted_extra_sample. Qed.
 Print Assumptions C17_legacy_extra_finite_sample_refuted.
+
+(* Legacy: the start mask before the repair (F14) drops the first cyclepoint when the first step is
+   a one-sample wrap into a trough (decay midpoint at 0, trough at 1) *)
+Theorem C17_legacy_start_mask_refuted :
+  wf_cps ex_nogap /\ first_idx ex_nogap = 0%nat /\
+  rmap (fun l => onth l 0) (phase_legacy_start ex_nogap) = Ok None /\
+  rmap (fun l => onth l 0) (phase ex_nogap) = Ok (Some 1%Q).
+Proof. exact phase_legacy_start_refuted. Qed.
+Print Assumptions C17_legacy_start_mask_refuted.
